@@ -118,7 +118,7 @@ pub fn sext(x: u128, n: u32) -> i128 {
 }
 
 /// Conversion between a primitive integer and its (zero-extended) bit pattern.
-pub trait BitsIo: Copy {
+pub trait BitsIo: Copy + core::hash::Hash {
     const NBITS: u32;
     const SIGNED: bool;
     fn from_u128(x: u128) -> Self;
@@ -752,4 +752,272 @@ pub fn parse_lay(s: &str) -> Lay {
     let n = it.next().unwrap().parse().unwrap();
     let f = it.next().unwrap().parse().unwrap();
     Lay { signed, n, f }
+}
+
+// ------------------------------------------------------------------ cross-type operand synthesis
+
+/// An integer (type: `isigned`, `m` bits; returned masked to m bits) that is
+/// adversarial for conversion to / comparison with layout `lay` holding `a`:
+/// equal to the integer part of `a`, off by one, at the ends of the layout's
+/// integer range, at the ends of the integer type, or structured/random.
+pub fn gen_int_for(rng: &mut Rng, lay: Lay, isigned: bool, m: u32, a: u128) -> u128 {
+    let il = Lay::new(isigned, m, 0);
+    let ibits = lay.n as i64 - lay.f as i64; // integer bits of the layout (incl. sign)
+    let v: i128 = match rng.below(10) {
+        0 | 1 => {
+            // floor of the value of a, +- small
+            let fl = if lay.f >= 128 { if lay.signed && lay.sext(a) < 0 { -1 } else { 0 } }
+                     else if lay.signed { lay.sext(a) >> lay.f } else { (a >> lay.f) as i128 };
+            fl.wrapping_add(rng.range(-1, 1) as i128)
+        }
+        2 | 3 => {
+            // ends of the layout's integer range: +-2^(ibits-1) (signed) / 2^ibits (unsigned), +- small
+            let e = if lay.signed { ibits - 1 } else { ibits };
+            if e < 0 || e > 126 {
+                rng.range(-2, 2) as i128
+            } else {
+                let p = 1i128 << e;
+                let s = if lay.signed && rng.chance(1, 2) { -p } else { p };
+                s.wrapping_add(rng.range(-2, 2) as i128)
+            }
+        }
+        4 => {
+            // twice the range (the "rhs between MAX and 2*MAX" corner)
+            let e = if lay.signed { ibits } else { ibits + 1 };
+            if e < 0 || e > 126 {
+                rng.range(-2, 2) as i128
+            } else {
+                let p = 1i128 << e;
+                (if rng.chance(1, 2) { -p } else { p }).wrapping_add(rng.range(-2, 2) as i128)
+            }
+        }
+        5 => rng.range(-3, 3) as i128,
+        _ => return gen_bits(rng, il),
+    };
+    (v as u128) & il.mask()
+}
+
+/// A value of layout `lay` adversarial for conversion to the integer type
+/// (`isigned`, `m` bits): integer part at the ends of the integer type's range
+/// with assorted fractional parts, or generic.
+pub fn gen_fixed_for_int(rng: &mut Rng, lay: Lay, isigned: bool, m: u32) -> u128 {
+    if lay.f >= lay.n || rng.chance(1, 2) {
+        return gen_round_operand(rng, lay);
+    }
+    let ends: [i128; 4] = if isigned {
+        let p = if m >= 128 { i128::MAX } else { (1i128 << (m - 1)) - 1 };
+        [p, -p - 1, 0, -1]
+    } else {
+        let p = if m >= 127 { i128::MAX } else { (1i128 << m) - 1 };
+        [p, 0, -1, 1]
+    };
+    let ip = ends[rng.below(4) as usize].wrapping_add(rng.range(-1, 1) as i128);
+    let fm = mask(lay.f);
+    let frac = match rng.below(5) {
+        0 => 0,
+        1 => 1,
+        2 => fm,
+        3 => 1u128 << (lay.f.max(1) - 1),
+        _ => rng.next128(),
+    } & fm;
+    (((ip as u128) << lay.f) | frac) & lay.mask()
+}
+
+/// For a (src, dst) pair of fixed layouts: a source bit pattern adversarial for
+/// conversion/comparison: near dst's range ends expressed in src's grid, values
+/// differing from a dst grid point only in bits dst cannot hold, or generic.
+pub fn gen_fixed_for_fixed(rng: &mut Rng, src: Lay, dst: Lay) -> u128 {
+    let r = rng.below(10);
+    if r < 4 {
+        return gen_bits(rng, src);
+    }
+    // dst range end as a power of two in value terms: 2^e
+    let dst_int = dst.n as i64 - dst.f as i64;
+    let e = match r {
+        4 | 5 => if dst.signed { dst_int - 1 } else { dst_int },        // just past MAX / at MIN
+        6 => if dst.signed { dst_int } else { dst_int + 1 },            // 2x range
+        7 => -(dst.f as i64),                                            // one dst ulp
+        8 => -(dst.f as i64) - 1,                                        // half a dst ulp
+        _ => rng.range(-(src.f as i64), src.n as i64 - src.f as i64),
+    };
+    // 2^e in src raw units = 2^(e + src.f)
+    let sh = e + src.f as i64;
+    if sh < 0 || sh >= src.n as i64 {
+        return gen_round_operand(rng, src);
+    }
+    let p = 1u128 << sh;
+    let d = rng.range(-2, 2) as i128 as u128;
+    let v = if rng.chance(1, 2) { p.wrapping_add(d) } else { p.wrapping_neg().wrapping_add(d) };
+    // optionally add sub-dst-ulp dust
+    let dust = if src.f > dst.f && rng.chance(1, 2) { rng.next128() & mask(src.f - dst.f) } else { 0 };
+    (v.wrapping_add(dust)) & src.mask()
+}
+
+/// A `Hasher` that records the byte stream it is fed.
+#[derive(Default)]
+pub struct RecHasher(pub Vec<u8>);
+impl core::hash::Hasher for RecHasher {
+    fn finish(&self) -> u64 {
+        0
+    }
+    fn write(&mut self, bytes: &[u8]) {
+        self.0.extend_from_slice(bytes);
+    }
+}
+
+// ------------------------------------------------------------------ float operand synthesis (raw bits only)
+
+/// (exponent bits, mantissa bits) of binary32 / binary64
+pub fn float_fmt(w: u32) -> (u32, u32) {
+    if w == 32 { (8, 23) } else { (11, 52) }
+}
+
+/// Bits of the float equal to (-1)^neg * m * 2^e if that value is exactly
+/// representable (normal or subnormal), else None.  Integer arithmetic only.
+pub fn make_float(w: u32, neg: bool, m: u128, e: i32) -> Option<u64> {
+    let (eb, mb) = float_fmt(w);
+    let bias = (1i32 << (eb - 1)) - 1;
+    let sign = (neg as u64) << (w - 1);
+    if m == 0 {
+        return Some(sign);
+    }
+    let tz = m.trailing_zeros();
+    let m = m >> tz;
+    let e = e + tz as i32;
+    let len = 128 - m.leading_zeros(); // significant bits
+    if len > mb + 1 {
+        return None;
+    }
+    // value = m * 2^e with m odd; top bit at exponent e + len - 1
+    let top = e + len as i32 - 1;
+    if top > bias {
+        return None;
+    }
+    if top >= 1 - bias {
+        // normal: mantissa field = (m << (mb + 1 - len)) without the hidden bit
+        let frac = ((m << (mb + 1 - len)) as u64) & ((1u64 << mb) - 1);
+        Some(sign | (((top + bias) as u64) << mb) | frac)
+    } else {
+        // subnormal: units of 2^(1 - bias - mb)
+        let sh = e - (1 - bias - mb as i32);
+        if sh < 0 {
+            return None;
+        }
+        Some(sign | ((m as u64) << sh))
+    }
+}
+
+/// A float bit pattern (width w) adversarial for conversion to / comparison
+/// with layout `lay`: grid points, exact ties between grid points and their
+/// float neighbours, range ends +- half an ulp, zeros, subnormals, top binade,
+/// infinities, NaNs, random patterns with exponents around the layout's range.
+pub fn gen_float_for(rng: &mut Rng, lay: Lay, w: u32, a: u128) -> u64 {
+    let (eb, mb) = float_fmt(w);
+    let emax = (1u64 << eb) - 1;
+    let wm = if w == 32 { 0xFFFF_FFFFu64 } else { u64::MAX };
+    let r = rng.below(100);
+    let nudge = |rng: &mut Rng, b: u64| -> u64 {
+        match rng.below(4) {
+            0 => b.wrapping_add(1) & wm,
+            1 => b.wrapping_sub(1) & wm,
+            _ => b,
+        }
+    };
+    if r < 45 {
+        // raw grid value R (from a, a boundary, or small), optionally + 1/2 (a tie): (2R+1) * 2^-(f+1)
+        let rr = match rng.below(6) {
+            0 => lay.max_bits(),
+            1 => lay.min_bits(),
+            2 => a,
+            3 => rng.below(8) as u128,
+            _ => {
+                // short mantissa so that the tie is representable
+                let len = 1 + rng.below((mb as u64).min(lay.n as u64));
+                let v = (rng.next128() & mask(len as u32)) | (1u128 << (len - 1));
+                let sh = rng.below((lay.n as u64 - len + 1).max(1)) as u32;
+                (v << sh) & lay.mask()
+            }
+        };
+        let (neg, mag) = if lay.signed { let s = lay.sext(rr); (s < 0, s.unsigned_abs()) } else { (rng.chance(1, 8), rr) };
+        let cand = match rng.below(4) {
+            0 => make_float(w, neg, mag, -(lay.f as i32)),
+            1 => mag.checked_mul(2).and_then(|t| make_float(w, neg, t + 1, -(lay.f as i32) - 1)),
+            2 => mag.checked_mul(2).and_then(|t| t.checked_sub(1)).and_then(|t| make_float(w, neg, t, -(lay.f as i32) - 1)),
+            _ => mag.checked_mul(4).and_then(|t| make_float(w, neg, t + 1, -(lay.f as i32) - 2)),
+        };
+        if let Some(b) = cand {
+            return nudge(rng, b);
+        }
+        // not representable exactly: take the top mantissa bits of mag (a float near it)
+        let len = 128 - mag.leading_zeros();
+        if len > mb + 1 {
+            let top = mag >> (len - mb - 1);
+            if let Some(b) = make_float(w, neg, top, -(lay.f as i32) + (len - mb - 1) as i32) {
+                return nudge(rng, b);
+            }
+        }
+    }
+    if r < 60 {
+        // specials
+        let sign = (rng.below(2)) << (w - 1);
+        let b = match rng.below(12) {
+            0 => 0,
+            1 => 1,                                  // smallest subnormal
+            2 => (1u64 << mb) - 1,                   // largest subnormal
+            3 => 1u64 << mb,                         // MIN_POSITIVE
+            4 => ((emax - 1) << mb) | ((1u64 << mb) - 1), // MAX
+            5 => (emax - 1) << mb,                   // bottom of the top binade
+            6 => ((emax - 1) << mb) | (rng.next() & ((1u64 << mb) - 1)),
+            7 => emax << mb,                         // inf
+            8 => (emax << mb) | (1u64 << (mb - 1)),  // quiet NaN
+            9 => (emax << mb) | 1,                   // signalling NaN
+            10 => (emax << mb) | (rng.next() & ((1u64 << mb) - 1)) | 1,
+            _ => rng.next() & ((1u64 << mb) - 1),    // random subnormal
+        };
+        return (sign | b) & wm;
+    }
+    if r < 90 {
+        // exponent around the layout's range, random or structured mantissa
+        let bias = (1i64 << (eb - 1)) - 1;
+        let lo = -(lay.f as i64) - 4;
+        let hi = (lay.n as i64 - lay.f as i64) + 3;
+        let e = rng.range(lo, hi) + bias;
+        let e = e.max(0).min(emax as i64 - 1) as u64;
+        let man = match rng.below(5) {
+            0 => 0,
+            1 => (1u64 << mb) - 1,
+            2 => 1u64 << (mb - 1),
+            3 => 1,
+            _ => rng.next(),
+        } & ((1u64 << mb) - 1);
+        return ((rng.below(2) << (w - 1)) | (e << mb) | man) & wm;
+    }
+    rng.next() & wm
+}
+
+/// A fixed-point pattern whose conversion to a float of width w needs rounding
+/// at hostile positions: bits beyond the 24th/53rd are 100..0, 011..1, 100..01.
+pub fn gen_fixed_for_float(rng: &mut Rng, lay: Lay, w: u32) -> u128 {
+    let (_, mb) = float_fmt(w);
+    let p = mb + 1;
+    if lay.n <= p + 1 || rng.chance(1, 3) {
+        return gen_bits(rng, lay);
+    }
+    let len = p + 1 + rng.below((lay.n - p) as u64) as u32; // total significant bits, > p
+    let len = len.min(lay.n - lay.signed as u32).max(p + 1);
+    let t = len - p; // tail bits
+    let head = (rng.next128() & mask(p)) | (1u128 << (p - 1));
+    let head = match rng.below(4) { 0 => head | 1, 1 => head & !1, 2 => mask(p), _ => head };
+    let tail = match rng.below(5) {
+        0 => 1u128 << (t - 1),                       // exactly half
+        1 => (1u128 << (t - 1)) - 1,                 // just below half
+        2 => (1u128 << (t - 1)) + 1,                 // just above half
+        3 => 0,
+        _ => rng.next128() & mask(t),
+    };
+    let mag = (head << t) | tail;
+    let sh = rng.below((lay.n - lay.signed as u32 - len + 1) as u64) as u32;
+    let mag = mag << sh;
+    let v = if lay.signed && rng.chance(1, 2) { mag.wrapping_neg() } else { mag };
+    v & lay.mask()
 }
